@@ -462,21 +462,24 @@ def bytes_concat(interp, a, b):
     return SBytes(z3.simplify(lo), z3.simplify(hi), a.ghost)
 
 
-def clamp_slice(n, sl):
-    """python slice clamping for a sequence of length n (z3 Int); step 1"""
+def clamp_slice(n, sl, ctx=None):
+    """python slice clamping for a sequence of length n (z3 Int); step 1.
+    With a context, conditions decided by the path condition are resolved so
+    that the resulting terms stay small."""
     eng = _engine()
     if sl.step is not None and sl.step != 1:
         raise eng.Unsupported("slice with step")
+    ite = ctx.ite if ctx is not None else z3.If
 
     def norm(v, default):
         if v is None:
             return default
         e = to_z3(v)
-        e = z3.If(e < 0, e + n, e)
-        return z3.If(e < 0, Z(0), z3.If(e > n, n, e))
+        e = ite(e < 0, e + n, e)
+        return ite(e < 0, Z(0), ite(e > n, n, e))
     a = norm(sl.start, Z(0))
     b = norm(sl.stop, n)
-    b = z3.If(b < a, a, b)
+    b = ite(b < a, a, b)
     return z3.simplify(a), z3.simplify(b)
 
 
@@ -673,7 +676,33 @@ def f_compare(interp, op, a, b):
 
 
 def f_binop(interp, op, a, b):
-    raise _engine().Unsupported("arithmetic on F scalars")
+    """arithmetic on floats with explicit NaN: NaN propagates; +-inf operands are
+    not modelled (assumption A-NOINF: operands of float arithmetic are finite or NaN)"""
+    eng = _engine()
+    axiom("A-NOINF (F arithmetic: operands finite or NaN)")
+
+    def term(v):
+        if isinstance(v, SF):
+            return v.e
+        if isinstance(v, float):
+            return to_z3(v, "F")
+        return F.fin(to_z3(v, "real"))
+    x, y = term(a), term(b)
+    nan = z3.Or(z3.Not(F.is_fin(x)), z3.Not(F.is_fin(y)))
+    vx, vy = F.val(x), F.val(y)
+    if op == "Add":
+        r = vx + vy
+    elif op == "Sub":
+        r = vx - vy
+    elif op == "Mult":
+        r = vx * vy
+    elif op == "Div":
+        interp.ctx.check(z3.Or(nan, vy != 0), "float division by zero does not occur",
+                         kind="noraise-lib")
+        r = vx / vy
+    else:
+        raise eng.Unsupported("F op " + op)
+    return SF(z3.If(nan, F.nan, F.fin(r)))
 
 
 # --------------------------------------------------------------------------
@@ -704,7 +733,7 @@ def getitem(interp, obj, key):
             raise eng.PyRaise(type(ex), ex.args)
     if isinstance(obj, SBytes):
         if isinstance(key, slice):
-            a, b = clamp_slice(obj.hi - obj.lo, key)
+            a, b = clamp_slice(obj.hi - obj.lo, key, ctx)
             return SBytes(z3.simplify(obj.lo + a), z3.simplify(obj.lo + b), obj.ghost)
         raise eng.Unsupported("bytes item")
     if isinstance(obj, SArr):
@@ -762,7 +791,7 @@ def arr_getitem(interp, obj, key):
         kk = norm_index(interp, obj.n, int(key) if isinstance(key, np.integer) else key)
         return wrap(obj.sel(kk))
     if isinstance(key, slice):
-        a, b = clamp_slice(obj.n, key)
+        a, b = clamp_slice(obj.n, key, ctx)
         if getattr(obj, "is_list", False):
             r = arr_new(interp, z3.simplify(b - a), lambda k: obj.sel(k + a), obj.kind, obj.dtype)
             r.is_list = True
@@ -828,8 +857,19 @@ def mask_select(interp, arr, mask):
     ctx.check(mask.n == arr.n, "boolean index has the length of the array", kind="noraise-lib")
     idx = where_idx(interp, mask)
     axiom("N-MASK")
-    r = arr_new(interp, idx.n, lambda k: arr.sel(idx.sel(k)), arr.kind, arr.dtype)
+    # the same (array value, mask value) gives the same term: ghost summaries
+    # attached to the selection are then shared between code and specification
+    store = ctx.__dict__.setdefault("_mask_select", {})
+    key = (arr.a.get_id() if arr.base is None else ("v", arr.uid), idx.uid)
+    if key in store:
+        a_term, n_term = store[key]
+        r = SArr(n_term, a_term, arr.kind, dtype=arr.dtype)
+        r.birth = ctx.stamp
+    else:
+        r = arr_new(interp, idx.n, lambda k: arr.sel(idx.sel(k)), arr.kind, arr.dtype)
+        store[key] = (r.a, r.n)
     r.sel_idx = idx
+    r.item_shape = getattr(arr, "item_shape", ())
     return r
 
 
@@ -870,7 +910,7 @@ def arr_setitem(interp, obj, key, v):
         obj.store(kk, to_z3(v, obj.kind))
         return None
     if isinstance(key, slice):
-        a, b = clamp_slice(obj.n, key)
+        a, b = clamp_slice(obj.n, key, ctx)
         view = SArr(z3.simplify(b - a), None, obj.kind, base=obj, off=a)
         if isinstance(v, SArr):
             ctx.check(v.n == view.n, "slice assignment: lengths match", kind="noraise-lib")
